@@ -76,11 +76,11 @@ var udpIDPool = []uint16{0x0000, 0x0001, 0x1234, 0xffff}
 type weights [nKinds]int
 
 var (
-	wUDP    = weights{kNormal: 38, kHit: 24, kShared: 6, kSlow: 6, kDecoded: 4, kLarge: 2, kPanic: 3, kDrop: 4, kBadClass: 2, kQR: 4, kShort: 2, kGarbage: 2, kBadCount: 2, kNotimp: 2, kOversize: 1,
+	wUDP = weights{kNormal: 38, kHit: 24, kShared: 6, kSlow: 6, kDecoded: 4, kLarge: 2, kPanic: 3, kDrop: 4, kBadClass: 2, kQR: 4, kShort: 2, kGarbage: 2, kBadCount: 2, kNotimp: 2, kOversize: 1,
 		kSized: 7, kFail: 2, kFailHit: 9, kNX: 5, kEDE: 3}
 	wStream = weights{kNormal: 38, kHit: 24, kShared: 6, kSlow: 5, kDecoded: 4, kLarge: 4, kPanic: 3, kDrop: 4, kBadClass: 2, kQR: 4, kGarbage: 2, kBadCount: 2, kNotimp: 2,
 		kSized: 9, kFail: 2, kFailHit: 9, kNX: 5, kEDE: 3}
-	wMsg    = weights{kNormal: 48, kHit: 24, kShared: 8, kSlow: 6, kDecoded: 4, kLarge: 2, kPanic: 3, kDrop: 3, kBadClass: 2,
+	wMsg = weights{kNormal: 48, kHit: 24, kShared: 8, kSlow: 6, kDecoded: 4, kLarge: 2, kPanic: 3, kDrop: 3, kBadClass: 2,
 		kSized: 4, kFail: 1, kFailHit: 4, kNX: 3, kEDE: 3}
 )
 
